@@ -86,6 +86,16 @@ def c11_all():
     for ind in c09.INDICATORS:
         j.append(X("ind_stream_dispatch", {"kind": ind, "t": 3, "max_paths": 20000}, "%s (default configuration), 3 valid symbolic candles (zero volume, flat candles, ties included): on every feasible path every result has exactly size() values and signals" % ind,
                    cost=15, timeout=1200, encodes=[IND + "*.rs: %s::{init,next,size}" % ind, "src/core/indicator/result.rs: IndicatorResult::{new,values,signals}"]))
+        if ind == "MoneyFlowIndex":
+            # typical price * volume makes the path conditions non-linear: 3 steps are decided on an idle machine only
+            j[-1].core = False
+            j[-1].tier = "t"
+            import copy
+            q = copy.copy(j[-1])
+            q.args = dict(q.args, t=2)
+            q.core, q.tier = True, "q"
+            q.bounds = q.bounds.replace("3 valid", "2 valid")
+            j.append(q)
     return j
 
 
